@@ -121,6 +121,9 @@ def check_row(ctx, row, seed):
     else:
         g4 = [k * math.pi / 2 for k in range(4)]
         pts = list(itertools.product(g4, [k * math.pi / 4 for k in range(0, 8, 2)], [k * math.pi / 4 for k in range(1, 8, 2)])) + [tuple(rng.uniform(-7, 7) for _ in range(3)) for _ in range(40)]
+    # values that are different numbers but hash alike in CPython (hash(-1) == hash(-2), ints and floats), one after the other
+    if npar >= 1:
+        pts = pts + [tuple([-1.0] * npar), tuple([-2.0] * npar), tuple([-1] * npar), tuple([-2] * npar), tuple([-2.0] + [-1.0] * (npar - 1))]
     first = True
     for p in pts:
         try:
